@@ -288,6 +288,9 @@ sc_stats_compute1 (sc_MPI_Comm mpicomm, int nvars, sc_statinfo_t * stats)
   double              value;
 
   for (i = 0; i < nvars; ++i) {
+    if (!stats[i].dirty) {
+      continue;
+    }
     value = stats[i].sum_values;
 
     stats[i].count = 1;
